@@ -36,10 +36,12 @@ ASSUMPTIONS = [
     "termination is judged on a logical step budget (sys.monitoring PY_START events), the "
     "wall-clock watchdog only makes a run inconclusive",
 ]
-FLOORS = {"quick": {"evaluations": 12000, "raw_lines": 1500, "json_hostile": 300,
-                    "structure_aware": 8000, "live_lines": 100, "answered": 12000},
-          "thorough": {"evaluations": 400000, "raw_lines": 50000, "json_hostile": 5000,
-                       "structure_aware": 250000, "live_lines": 3000, "answered": 400000}}
+FLOORS = {"quick": {"evaluations": 10000, "raw_lines": 1500, "json_hostile": 300,
+                    "structure_aware": 8000, "live_lines": 100, "answered": 12000,
+                    "hostile_leaves": 150},
+          "thorough": {"evaluations": 300000, "raw_lines": 40000, "json_hostile": 4000,
+                       "structure_aware": 150000, "live_lines": 1200, "answered": 300000,
+                       "hostile_leaves": 150}}
 
 STEP_BUDGET = 3_000_000
 
@@ -194,6 +196,25 @@ HOSTILE_LEAVES = [
 ]
 
 
+class rq_raw(bytes):
+    """bytes that are already RLP and must be embedded as they are"""
+
+
+_orig_rlp_encode = rq.rlp_encode
+
+
+def _rlp_encode_with_raw(item):
+    if isinstance(item, rq_raw):
+        return bytes(item)
+    if isinstance(item, (bytes, bytearray)):
+        return _orig_rlp_encode(item)
+    payload = b"".join(_rlp_encode_with_raw(x) for x in item)
+    return rq._rlp_len(len(payload), 0xc0) + payload
+
+
+rq.rlp_encode = _rlp_encode_with_raw
+
+
 def structure_aware(rng, spec):
     """the C02 grid (already hostile on types) + leaves aimed at conversions"""
     for v1, name, label, req in c02.gen_requests(spec):
@@ -255,6 +276,25 @@ def structure_aware(rng, spec):
             r = copy.deepcopy(a)
             r["brothers"][0] = bl
             yield "leaf:advance:%s" % lab, v1, r
+        def deep_rlp(depth, width=0):
+            # a valid RLP list nested `depth` levels (what a recursive decoder chokes on)
+            item = b"\xc0"
+            for _ in range(depth):
+                item = rq.rlp_encode([rq_raw(item)] + [b"\x01"] * width)
+            return item.hex()
+        for d in (100, 500, 990, 1000, 1100, 3000, 20000):
+            r = copy.deepcopy(a)
+            r["brothers"][0] = [deep_rlp(d)]
+            yield "leaf:advance:bro-deep-%d" % d, v1, r
+            for cmd in ("advanceBlockchain", "updateAncestorBlock"):
+                r = copy.deepcopy(b[cmd])
+                r["blocks"][0] = deep_rlp(d)
+                yield "leaf:%s:blk-deep-%d" % (cmd[:7], d), v1, r
+                r = copy.deepcopy(b[cmd])
+                # 19 fields, one of which is the deep list
+                r["blocks"][0] = rq.rlp_encode([b"\x01"] * 18 + [rq_raw(bytes.fromhex(
+                    deep_rlp(d)))]).hex()
+                yield "leaf:%s:blk-deep-field-%d" % (cmd[:7], d), v1, r
         for cmd in ("advanceBlockchain", "updateAncestorBlock"):
             for lab, blk in [("blk-nothex", "zz"), ("blk-odd", "abc"), ("blk-empty", ""),
                              ("blk-not-rlp", "aabbcc"), ("blk-rlp-string", "83aabbcc"),
@@ -377,14 +417,22 @@ def run_shard(spec, acc):
             feed(cls, False, line, {"kind": "json", "cls": cls, "v1": False,
                                     "line": line[:2048].hex() if len(line) < 4096 else None,
                                     "len": len(line), "head": line[:60].decode("latin1")})
-        # (3) structure-aware; kept for (4)
+        # (3) structure-aware; kept for (4).  The grid is dealt to shards by its own
+        # generator; the hand-written leaves are dealt here
         kept = []
+        leaf_no = 0
         for cls, v1, req in structure_aware(rng, spec):
+            if cls.startswith("leaf:"):
+                leaf_no += 1
+                if leaf_no % spec["n"] != spec["shard"]:
+                    continue
             try:
                 line = json.dumps(req).encode() + b"\n"
             except (TypeError, ValueError):
                 continue
             acc.count("structure_aware")
+            if cls.startswith("leaf:"):
+                acc.count("hostile_leaves")
             ok = feed(cls, v1, line, {"kind": "req", "v1": v1, "request": req if len(line) <
                                       20000 else None, "cls": cls})
             if len(kept) < 400 and ok and rng.random() < 0.05:
